@@ -280,7 +280,7 @@ fn main() {
         };
 
         // ---- controlled mode
-        let iters = if a.replay.is_some() { 3 } else { a.pick(40, 600) };
+        let iters = if a.replay.is_some() { 3 } else { a.pick(40, 150) };
         let t_ctl = Instant::now();
         for it in 0..iters {
             if !idle(Duration::from_secs(40)).await {
@@ -365,7 +365,7 @@ fn main() {
         // ---- stress mode: seeded sleeps at the pause point, rapid requests
         if a.replay.is_none() {
             gate::stress(GATE, 500, a.seed ^ 0x25);
-            let dur = Duration::from_secs(a.pick(20, 360));
+            let dur = Duration::from_secs(a.pick(20, 90));
             let t0 = Instant::now();
             let base = gate::events().len();
             let mut n = 0u64;
